@@ -24,6 +24,8 @@ def oracle_sync(ent):
     for k in res["files"]:
         if str(k).startswith("ODD:"):
             return "interleaved file %s holds an odd number of records" % k[4:]
+        if str(k).startswith("MISSING:"):
+            return "redirect file %s was asked for as the second of two files and was not written" % k[8:]
         if str(k).startswith("UNPARSABLE:"):
             return "output file %s of a run that ended with status 0 is not a sequence of records" % k[11:]
     seen = {}
@@ -225,7 +227,7 @@ def oracle_slices(ent, d):
     b = pcfg.base
     inp = {i: pr for i, pr in enumerate(pairs)}
     for key, prs in res["files"].items():
-        if key == "_lens" or str(key).startswith(("ODD", "UNPARSABLE")):
+        if key == "_lens" or str(key).startswith(("ODD", "UNPARSABLE", "MISSING")):
             continue
         for pr in prs:
             if pr[0] == "LENGTH MISMATCH":
